@@ -706,6 +706,22 @@ func knownTruth(b *ssa.BasicBlock, i int, cond ssa.Value) (truth bool, ok bool) 
 			return false, false
 		}
 		l, r := edgeVal(x.X), edgeVal(x.Y)
+		// a sentinel result: `return -1` / `return pos` of an inlined search compared with the
+		// sentinel in the caller. A counter that starts at a non-negative constant and only grows
+		// by non-negative constants is never equal to a negative constant.
+		if isInt(l.Type()) && isInt(r.Type()) {
+			kl, okl := intConst(l)
+			kr, okr := intConst(r)
+			switch {
+			case okl && okr:
+				return (kl == kr) == (x.Op == token.EQL), true
+			case okl && kl < 0 && nonNegCounter(r, map[ssa.Value]bool{}):
+				return x.Op == token.NEQ, true
+			case okr && kr < 0 && nonNegCounter(l, map[ssa.Value]bool{}):
+				return x.Op == token.NEQ, true
+			}
+			return false, false
+		}
 		nl, nr := nilness(l), nilness(r)
 		if nl == 0 || nr == 0 || (nl == 2 && nr == 2) {
 			return false, false
@@ -714,6 +730,50 @@ func knownTruth(b *ssa.BasicBlock, i int, cond ssa.Value) (truth bool, ok bool) 
 		return eq == (x.Op == token.EQL), true
 	}
 	return false, false
+}
+
+func isInt(t types.Type) bool {
+	b, ok := t.Underlying().(*types.Basic)
+	return ok && b.Info()&types.IsInteger != 0
+}
+
+func intConst(v ssa.Value) (int64, bool) {
+	k, ok := v.(*ssa.Const)
+	if !ok || k.Value == nil || k.Value.Kind() != constant.Int {
+		return 0, false
+	}
+	return constant.Int64Val(k.Value)
+}
+
+// nonNegCounter: v is a non-negative constant, a length, or is built from those by φ-nodes and
+// additions of non-negative constants (a loop counter; wrap-around of a counter bounded by a
+// length or a slice index is not considered, as in the bounds engine).
+func nonNegCounter(v ssa.Value, seen map[ssa.Value]bool) bool {
+	if seen[v] {
+		return true
+	}
+	seen[v] = true
+	switch x := v.(type) {
+	case *ssa.Const:
+		k, ok := intConst(x)
+		return ok && k >= 0
+	case *ssa.Phi:
+		for _, e := range x.Edges {
+			if !nonNegCounter(e, seen) {
+				return false
+			}
+		}
+		return len(x.Edges) > 0
+	case *ssa.BinOp:
+		if x.Op == token.ADD {
+			return nonNegCounter(x.X, seen) && nonNegCounter(x.Y, seen)
+		}
+	case *ssa.Call:
+		if bi, ok := x.Call.Value.(*ssa.Builtin); ok && bi.Name() == "len" {
+			return true
+		}
+	}
+	return false
 }
 
 // threadOnce finds one block B that ends in an If whose outcome is known on some incoming edge and
